@@ -2,7 +2,7 @@
 from . import gwcheck, gwfocus
 
 PID = "C10"
-PROJ = ["out", "ota", "trans", "exc"]
+PROJ = ["out", "ota", "trans", "exc", "cb"]
 PROPS = ["OnlyScheduledNodesServed", "ConfigWithheldAfterFetchStarted", "BlocksOnlyAfterConfig",
          "MalformedFwRequestIgnored", "RebootUntilPresented", "NoEffectOnBad"]
 INVS = ["RebootOnlyAfterUpdate", "Disciplines"]
